@@ -323,6 +323,44 @@ def known_finding_runs(ctx):
     validate_runs(ctx, vlib.read_ndjson(tp), "kf")
 
 
+def delete_file_chain(ctx):
+    """one long-lived segment (no forced flush, no merge): every placement of one delete inside the
+    first transaction (applied in memory when the segment is finalised) x every ordered choice of
+    two / three later delete-commits (each writes a delete file on top of the previous one), also
+    across a rollback and a re-opened writer.  IndexCore models exactly this (alive, delop, fdel)."""
+    import itertools
+    A = lambda i, t: {"op": "add", "id": i, "t": t, "v": 0}
+    D = lambda t: {"op": "del", "pred": {"k": "term", "t": t}}
+    C = {"op": "commit"}
+    terms = ["a", "b", "c", "d", "e"]
+    hs = []
+    for pos in (1, 2, 3, 4):
+        for later in itertools.permutations(terms, 3):
+            for t1 in terms[:pos]:
+                if t1 in later:
+                    continue
+                first = [A(i + 1, terms[i]) for i in range(5)]
+                first.insert(pos, D(t1))
+                for variant in ("plain", "rollback", "reopen"):
+                    ops = first + [D(later[0]), C, D(later[1]), C]
+                    if variant == "rollback":
+                        ops += [D(later[2]), {"op": "rollback"}, D(later[2]), C]
+                    elif variant == "reopen":
+                        ops += [{"op": "drop_writer"}, {"op": "new_writer"}, D(later[2]), C]
+                    else:
+                        ops += [D(later[2]), C]
+                    hs.append({"cfg": {"threads": 1, "flush_after": 0, "merge": "none"}, "ops": ops, "tag": f"chain-{pos}-{t1}-{''.join(later)}-{variant}"})
+    if ctx.quick:
+        random.Random(ctx.seed).shuffle(hs)
+        hs = hs[:90]
+    hp, tp = ctx.path("chain_histories.ndjson"), ctx.path("chain_trace.ndjson")
+    vlib.write_ndjson(hp, hs)
+    vlib.run_bin("core_driver", ["replay", "--in", hp, "--out", tp, "--no-storage"], timeout=900)
+    n = validate_runs(ctx, vlib.read_ndjson(tp), "chain")
+    ctx.cov["delete_file_chains"] = {"histories": len(hs), "accepted": n}
+    log(f"[R] delete-file chains on one long-lived segment: {n}/{len(hs)} histories accepted")
+
+
 def delete_queue(ctx):
     """the delete queue by itself: the code-shaped model under every interleaving (DeleteQueueImpl),
     TLC-generated operation sequences replayed on the real DeleteQueue / DeleteCursor, and a pusher
@@ -374,6 +412,9 @@ def run(ctx):
     ev = replay_generated(ctx, 150 if ctx.quick else 1500, 70)
     ev2 = random_histories(ctx, 60 if ctx.quick else 600, 25, ctx.seed)
     random_histories(ctx, 20 if ctx.quick else 200, 30, ctx.seed + 1000, extra=["--delete-all"], label="rand_da")
+    # long-lived segments: no forced flush, no merge policy - a segment collects deletes at its creation
+    # (in-memory bitset) and then one delete file per commit (advance_deletes on top of the previous file)
+    random_histories(ctx, 30 if ctx.quick else 300, 30, ctx.seed + 1500, extra=["--flush", "0", "--merge", "none", "--term-deletes"], label="rand_longseg")
     if not ctx.quick:
         random_histories(ctx, 200, 60, ctx.seed + 2000, label="rand_long")
     known_finding_runs(ctx)
@@ -381,6 +422,7 @@ def run(ctx):
     impl_traces(ctx, 60 if ctx.quick else 600, 25, ctx.seed + 3000)
     producers(ctx, 40 if ctx.quick else 500, ctx.seed + 4000)
     budget_runs(ctx)
+    delete_file_chain(ctx)
     delete_queue(ctx)
     runs = vlib.split_runs(api_events(ev2))
     if runs:
